@@ -90,6 +90,23 @@ Monitors:
         that raise for every argument as counters only
         (observed_unusable_method/<name>) - real bugs, but not violations of
         the wrap-and-zip law.
+  fold  (25 % of the meth cases) REDUCTIONS over the channels:
+        ChannelList.sum(), Mix.new / Mix.ar / Mix.kr.  The class of
+        behaviour: a fold has edge cases in the NUMBER of channels (0, 1, 2,
+        then Mix's groups of 3 / 4 and its recursion at 9 / 13) crossed with
+        what a channel is (unit / number, plain list, ChannelList, tuple,
+        nested once more) and the container they sit in (ChannelList, plain
+        list, bare value for Mix); with one channel there is nothing to
+        combine and the temptation is to hand the channel back.  Decided:
+        value against the left fold `0 + c0 + c1 ..` through the reference
+        expansion of binary `+` (Mix: groups through Sum4.new / Sum3.new),
+        TYPE (a list answer is a ChannelList at the top whatever the type of
+        the nested channel), unit count, and ALIASING: no list object of the
+        answer at any depth is a list object of the receiver, and writing
+        into every list of the answer leaves the receiver's snapshot
+        unchanged.  Keys: C03/chlist-fold/<form>/<result-... | unit-count |
+        raises/<site> | receiver-changed-by-writing-into-answer |
+        answer-shares-list-object-with-receiver>.
   out   Out / ReplaceOut / OffsetOut / XOut / LocalOut: the decoded output
         units must be exactly the reference expansion of (fixed args +
         channel array) with literal zeros replaced by an audio-rate DC(0).
@@ -125,7 +142,11 @@ RULE = ("seeded random calls; gen: uniformly chosen qualifying (class, "
         "against scalar/list/nested operands, 24 % of the binary operator "
         "cases put a single unit / output proxy against a plain list or "
         "ChannelList (nested lists, tuples inside) through operator, "
-        "reflected operator, named method and builtin function; out: output classes with nested "
+        "reflected operator, named method and builtin function; 25 % of the "
+        "meth cases are reductions (ChannelList.sum, Mix.new/ar/kr) over 0-13 "
+        "channels that are units / numbers / plain lists / ChannelLists / "
+        "tuples (sum only), single nested channel over-represented, value + "
+        "top-level type + aliasing with the receiver; out: output classes with nested "
         "channel arrays and int/float zeros.  A case is non-trivial when the "
         "expansion has to wrap or recurse (two list arguments of different "
         "length, or a nested list, and a list of length >= 2) and both the "
@@ -151,6 +172,15 @@ ASSUMPTIONS = [
     "defaulting constructors: what a position left to its default (None) "
     "means is taken from the list-free call; None inside a list and empty "
     "lists are outside the domain",
+    "reductions: the meaning of sum is the left fold 0 + c0 + c1 .. of "
+    "channel-list `+` (what sclang's and sc3's sum document); Mix groups by "
+    "four / three through Sum4 / Sum3; Mix answering a one-element channel "
+    "list instead of the bare unit is accepted (counted as observed_mix_"
+    "answer_wrapped_in_one_element_list); tuple channels only for sum (list "
+    "arithmetic zips them, Sum3/Sum4 take them whole: no single meaning in "
+    "Mix); Mix.ar/kr only over units of one rate, Mix.kr control rate only "
+    "(mixed rates make the whole-list rate decision ambiguous; Mix.kr "
+    "rewrites audio-rate entries of its argument in place by design)",
     "methods that fail for every argument (both the expanded call and the "
     "per-element calls raise) are counted (observed_unusable_method/<name>), "
     "not judged: they cannot violate the law",
@@ -183,7 +213,16 @@ MIN_COUNTERS = {
               'op_unit_compared_channel_list_holding_tuple': 40,
               'op_unit_compared_with_tuples': 150,
               'op_unit_route/bi': 60, 'op_unit_route/bi-r': 60,
-              'op_unit_route/method': 80, 'op_unit_route/rop': 100},
+              'op_unit_route/method': 80, 'op_unit_route/rop': 100,
+              'fold_compared': 1000, 'fold/sum': 400, 'fold/Mix.new': 250,
+              'fold/Mix.ar': 120, 'fold/Mix.kr': 120,
+              'fold_compared_channels/0': 50, 'fold_compared_channels/1': 300,
+              'fold_compared_channels/2': 200,
+              'fold_compared_single_nested_channel': 200,
+              'fold_compared_single_nested_channel/plain': 100,
+              'fold_compared_single_nested_channel/chlist': 100,
+              'fold_compared_tuple_channels': 60,
+              'fold_alias_checks_list_answer': 700},
     'thorough': {'gen_compared': 100000, 'gen_unit_count_checks': 100000,
                  'gen_bytes_trees_compared': 20000, 'gen_tuple_probes': 2000,
                  'op_compared': 30000, 'meth_compared': 15000,
@@ -211,7 +250,17 @@ MIN_COUNTERS = {
                  'op_unit_compared_channel_list_holding_tuple': 300,
                  'op_unit_compared_with_tuples': 1000,
                  'op_unit_route/bi': 500, 'op_unit_route/bi-r': 500,
-                 'op_unit_route/method': 600, 'op_unit_route/rop': 800},
+                 'op_unit_route/method': 600, 'op_unit_route/rop': 800,
+                 'fold_compared': 5000, 'fold/sum': 2000, 'fold/Mix.new': 1200,
+                 'fold/Mix.ar': 600, 'fold/Mix.kr': 600,
+                 'fold_compared_channels/0': 250,
+                 'fold_compared_channels/1': 1500,
+                 'fold_compared_channels/2': 1000,
+                 'fold_compared_single_nested_channel': 1000,
+                 'fold_compared_single_nested_channel/plain': 500,
+                 'fold_compared_single_nested_channel/chlist': 500,
+                 'fold_compared_tuple_channels': 300,
+                 'fold_alias_checks_list_answer': 3500},
 }
 
 
@@ -1788,6 +1837,9 @@ def run_meth(spec, acc, H):
     names = sorted(METHODS)
     for i in iter_cases(spec):
         rng = case_rng(spec['seed'], 'C03', 'meth', i)
+        if rng.random() < 0.25:
+            fold_case(acc, H, i, rng)
+            continue
         name = rng.choice(names)
         nreq, kinds = METHODS[name]
         rates = rng.choice([('audio',), ('control',)])
@@ -1953,6 +2005,263 @@ def meth_build(acc, H, i, name, recv, args, classify, share, build_no):
             acc.violation('C03/chlist-method/tuple-argument-expanded', wit)
         else:
             acc.violation(f'C03/chlist-method/{name}/{fam}{how}', wit)
+    return kind
+
+
+# ---------------------------------------------------------------------------
+# fold: reductions over the channels (run inside the meth shards)
+#
+# ChannelList.sum(), Mix.new / Mix.ar / Mix.kr.  A reduction is the one kind
+# of convenience method whose answer is not "one element per channel": it
+# folds the channels with the `+` of channel-list arithmetic, so for a
+# receiver with a SINGLE channel the fold has nothing to combine and an
+# implementation is tempted to hand back what it was given.  The class of
+# behaviour: the number of channels at the edge of the fold (0, 1, 2, then
+# the group sizes of Mix: 3, 4, 5 .. 13) crossed with what a channel is (a
+# unit / number, a plain list, a ChannelList, a tuple, nested once more) and
+# with the container the channels sit in (ChannelList, plain list or a bare
+# value for Mix).  Decided: the value (reference = left fold `0 + c0 + c1 ..`
+# through the reference expansion of binary `+`, for Mix grouped by four /
+# three through Sum4.new / Sum3.new as documented), the TYPE of the answer (a
+# list answer is a ChannelList at the top, whatever the type of the single
+# nested channel; below the top list arithmetic keeps the container kinds,
+# any sequence is accepted there), one unit per combination, and ALIASING:
+# no list object of the answer, at any depth, is a list object of the
+# receiver, and writing into every list of the answer leaves the receiver's
+# snapshot unchanged (the fold describes a new value: `mix[0] = x` or
+# `mix *= 0.5` on the mix of one stereo signal must not reach that signal).
+
+FOLD_FORMS = ['sum', 'sum', 'sum', 'Mix.new', 'Mix.new', 'Mix.ar', 'Mix.kr']
+
+
+def gen_fold_receiver(rng, form):
+    """-> (template, info).  info: n channels, single (one channel that is
+    itself a sequence), kinds of the nested channels."""
+    if form == 'Mix.kr':
+        rates = ('control',)
+    elif form == 'Mix.ar':
+        rates = rng.choice([('audio',), ('control',)])
+    else:
+        rates = rng.choice([('audio',), ('control',), ('audio', 'control')])
+    p_num = 0.2 if form in ('sum', 'Mix.new') else 0.0
+    kinds = set()
+
+    def leaf():
+        if rng.random() < p_num:
+            return ('num', pos_num(rng))
+        return ('ugen', rng.choice(rates))
+
+    def chan(depth, p_nested):
+        if rng.random() >= p_nested:
+            return leaf()
+        k = rng.choices(['plain', 'chlist', 'tuple'], [45, 40, 15])[0]
+        if form != 'sum' and k == 'tuple':
+            # Mix groups by Sum3 / Sum4 (generic expansion: a tuple is one
+            # value) and folds the rest by list arithmetic (zips tuples):
+            # tuple channels have no single meaning there
+            k = 'plain'
+        kinds.add(k)
+        n = rng.choice([1, 2, 2, 3])
+        if k == 'tuple':
+            return ('tup', [leaf() for _ in range(n)])
+        return ('list', [chan(depth + 1, 0.25 if depth < 2 else 0.0)
+                         for _ in range(n)], k == 'chlist')
+    if form == 'sum':
+        n = rng.choice([0, 1, 1, 1, 1, 2, 2, 3, 4])
+    elif form == 'Mix.new':
+        n = rng.choice([0, 1, 1, 1, 2, 2, 3, 4, 5, 7, 9, 13])
+    else:
+        n = rng.choice([1, 1, 1, 2, 2, 3, 4, 5, 9])
+    p_nested = rng.choice([0.0, 0.5, 1.0, 1.0])
+    items = [chan(1, p_nested) for _ in range(n)]
+    as_cl = True if form == 'sum' else rng.random() < 0.6
+    t = ('list', items, as_cl)
+    bare = False
+    if form != 'sum' and n == 1 and items[0][0] in ('ugen', 'num') and \
+            rng.random() < 0.4:
+        t, bare = items[0], True        # Mix of a bare value / one signal
+    info = {'n': n, 'bare': bare, 'kinds': kinds,
+            'single': n == 1 and items[0][0] in ('list', 'tup'),
+            'nested': any(x[0] in ('list', 'tup') for x in items)}
+    return t, info
+
+
+def tuples_to_lists(x):
+    # list arithmetic zips tuples like lists (documented in sc3)
+    if isinstance(x, (list, tuple)):
+        return [tuples_to_lists(i) for i in x]
+    return x
+
+
+def fold_sum_ref(items, mk, stats):
+    res = 0
+    for it in items:
+        res = M.expand([res, it], lambda a: a[0] + a[1], mk, stats)
+    return res
+
+
+def mix_ref(H, lst, mk, stats):
+    lst = lst if isinstance(lst, list) else [lst]
+    mixed = []
+    for k in range(0, len(lst), 4):
+        c = lst[k:k + 4]
+        if len(c) == 4:
+            mixed.append(M.expand(c, lambda a: H.ugn.Sum4.new(*a), mk, stats))
+        elif len(c) == 3:
+            mixed.append(M.expand(c, lambda a: H.ugn.Sum3.new(*a), mk, stats))
+        else:
+            mixed.append(fold_sum_ref(c, mk, stats))
+    if len(mixed) < 3:
+        return fold_sum_ref(mixed, mk, stats)
+    if len(mixed) == 3:
+        return M.expand(mixed, lambda a: H.ugn.Sum3.new(*a), mk, stats)
+    return mix_ref(H, mixed, mk, stats)
+
+
+def fold_callables(H, form):
+    """(real call(receiver), reference(receiver copy, stats))."""
+    from sc3.synth.ugens.mix import Mix
+    mk, UG, lne = H.ChannelList, H.ugn.UGen, H.lne
+    if form == 'sum':
+        return (lambda r: r.sum()), (lambda r, st: fold_sum_ref(r, mk, st))
+    if form == 'Mix.new':
+        return Mix.new, (lambda r, st: mix_ref(H, r, mk, st))
+
+    def conv(a):
+        x = a[0]
+        rate = x.rate if isinstance(x, UG) else 'scalar'
+        if form == 'Mix.ar':
+            return x if rate == 'audio' else (
+                lne.K2A.ar(x) if rate == 'control' else lne.DC.ar(x))
+        return x if rate == 'control' else lne.DC.kr(x)
+
+    def ref(r, st):
+        return M.expand([mix_ref(H, r, mk, st)], conv, mk)
+    return (Mix.ar if form == 'Mix.ar' else Mix.kr), ref
+
+
+def fold_diff(H, E, R, s, top=True):
+    seq = (list, tuple)
+    if isinstance(R, list):
+        if not isinstance(E, seq):
+            return 'not-expanded'
+        if top and not isinstance(E, H.ChannelList):
+            return 'not-channel-list'
+        if len(E) != len(R):
+            return 'length'
+        for e, r in zip(E, R):
+            k = fold_diff(H, e, r, s, False)
+            if k:
+                return k
+        return None
+    if isinstance(E, seq):
+        return 'over-expanded'
+    return None if s(E) == s(R) else 'element'
+
+
+def list_objects(x, out):
+    """every list object reachable from x through lists and tuples."""
+    if isinstance(x, list):
+        out.append(x)
+    if isinstance(x, (list, tuple)):
+        for i in x:
+            list_objects(i, out)
+    return out
+
+
+def fold_case(acc, H, i, rng):
+    form = rng.choice(FOLD_FORMS)
+    recv, info = gen_fold_receiver(rng, form)
+    call, ref = fold_callables(H, form)
+    st = {}
+
+    def body():
+        r, rR = H.inst_pair(recv, None, (0,))
+        rR = tuples_to_lists(rR)
+        s = H.signer()
+        st['args'] = [r]
+        st['snap0'] = H.snap(st['args'])
+        E, Eexc, cE = H.count_created(lambda: call(r))
+        st['mutated'] = H.snap_diff(st['snap0'], H.snap(st['args']))
+        stats = {}
+        R, Rexc, cR = H.count_created(lambda: ref(rR, stats))
+        st.update(E=E, Eexc=Eexc, R=R, Rexc=Rexc, stats=stats)
+        if Eexc is not None or Rexc is not None:
+            return
+        st['Erepr'], st['Rrepr'] = repr(E)[:500], repr(R)[:500]
+        if form != 'sum' and not isinstance(R, list) and \
+                isinstance(E, H.ChannelList) and len(E) == 1 and \
+                not isinstance(E[0], (list, tuple)):
+            # Mix wraps the mix of plain channels in a one-element channel
+            # list (sclang answers the unit): both are accepted
+            st['wrapped'] = True
+            E = E[0]
+        st['diff'] = fold_diff(H, E, R, s)
+        st['count_ok'] = cE == cR
+        st['cE'], st['cR'] = dict(cE), dict(cR)
+        # aliasing: identity of list objects, then writing into the answer
+        mine = {id(x) for x in list_objects(st['args'], [])}
+        theirs = list_objects(st['E'], [])
+        st['alias'] = any(id(x) in mine for x in theirs)
+        st['alias_lists'] = len(theirs)
+        for x in theirs:
+            if len(x):
+                x[0] = -12345.5
+            x.append(-54321.5)
+        st['written'] = H.snap_diff(st['snap0'], H.snap(st['args']))
+    H.build(body)
+    wit = {'case': i, 'form': form, 'receiver': repr(recv)}
+    desc = h64(('fold', form, repr(recv)))
+    kind = None
+    if 'E' not in st:
+        acc.count('fold_body_not_reached')
+    elif st['mutated']:
+        wit['arguments_after'] = repr(st['args'])[:500]
+        acc.violation(f"C03/argument-mutated/fold/{st['mutated']}", wit)
+        acc.case(desc, nontrivial=True)
+        return 'argument-mutated'
+    elif st['Eexc'] is not None and st['Rexc'] is not None:
+        acc.count('fold_discard_both_raise')
+    elif st['Rexc'] is not None:
+        acc.count('fold_discard_reference_raises')
+    elif st['Eexc'] is not None:
+        kind = 'raises/' + exc_site(st['Eexc'])
+        wit['exception'] = short_tb(st['Eexc'])
+    else:
+        acc.count('fold_compared')
+        acc.count('fold/' + form)
+        acc.count(f"fold_compared_channels/{min(info['n'], 5)}")
+        if st.get('wrapped'):
+            acc.count('observed_mix_answer_wrapped_in_one_element_list')
+        if info['single']:
+            acc.count('fold_compared_single_nested_channel')
+            for k in info['kinds']:
+                acc.count('fold_compared_single_nested_channel/' + k)
+        if 'tuple' in info['kinds']:
+            acc.count('fold_compared_tuple_channels')
+        acc.count('fold_alias_checks')
+        if st['alias_lists']:
+            acc.count('fold_alias_checks_list_answer')
+        if st['diff']:
+            kind = 'result-' + st['diff']
+            wit.update(answer=st['Erepr'], reference=st['Rrepr'])
+        elif not st['count_ok']:
+            kind = 'unit-count'
+            wit.update(created=st['cE'], created_reference=st['cR'])
+        elif st['written']:
+            kind = 'receiver-changed-by-writing-into-answer'
+            wit.update(answer=st['Erepr'], receiver_after=repr(st['args'])[:300],
+                       what=st['written'])
+        elif st['alias']:
+            kind = 'answer-shares-list-object-with-receiver'
+            wit.update(answer=st['Erepr'])
+    ok = 'E' in st and st['Eexc'] is None and st['Rexc'] is None
+    acc.case(desc, nontrivial=bool(kind) or (ok and info['nested']))
+    if kind:
+        shape = 'single-nested-channel' if info['single'] else (
+            'nested-channels' if info['nested'] else 'flat')
+        wit['shape'] = shape
+        acc.violation(f'C03/chlist-fold/{form}/{kind}', wit)
     return kind
 
 
